@@ -77,11 +77,11 @@ func rwCall(route, x string) string {
 	case "try-handler":
 		return "try(boom, " + x + ")"
 	case "list.map":
-		return "[1].map(" + x + ")"
+		return "one.map(" + x + ")"
 	case "list.each":
-		return "[1].each(" + x + ")"
+		return "one.each(" + x + ")"
 	case "list.filter":
-		return "[1].filter(" + x + ")"
+		return "one.filter(" + x + ")"
 	case "sorted-cmp":
 		return "sorted([2, 1], " + x + ")"
 	case "bound-method":
@@ -124,15 +124,19 @@ func rwBody(s runawaySpec, callee string) string {
 	}
 	rec := rwCall(rwRoutes[s.Route], callee)
 	e := rwWrap(rwPending[s.Pending], rec)
+	st := e // as a statement (a map literal cannot start one)
+	if rwPending[s.Pending] == "map" {
+		st = "v := " + e
+	}
 	switch rwSites[s.Site] {
 	case "stmt":
-		b.WriteString("  " + e + "\n  return 0\n")
+		b.WriteString("  " + st + "\n  return 0\n")
 	case "return":
 		b.WriteString("  return " + e + "\n")
 	case "defer":
 		b.WriteString("  defer " + rec + "\n  return 0\n")
 	case "deferred-closure":
-		b.WriteString("  defer func() { " + e + " }()\n  return 0\n")
+		b.WriteString("  defer func() { " + st + " }()\n  return 0\n")
 	case "try-handler":
 		b.WriteString("  return try(boom, func(e) { return " + e + " })\n")
 	}
@@ -143,7 +147,7 @@ func rwBody(s runawaySpec, callee string) string {
 func (s runawaySpec) render() (src string, deadlineMS int) {
 	route := rwRoutes[s.Route]
 	var b strings.Builder
-	b.WriteString("func noop() { }\nfunc boom() { error(\"e\") }\nfunc g3(a, b, c) { return c }\nfunc ok() { return 7 }\n")
+	b.WriteString("func noop() { }\nfunc boom() { error(\"e\") }\nfunc g3(a, b, c) { return c }\nfunc ok() { return 7 }\none := [1]\n")
 	switch route {
 	case "bound-method":
 		b.WriteString("mv := [1].map\n")
